@@ -882,7 +882,8 @@ def window_lanczos(N):
     if N == 1:
         return ones(1)
 
-    n = linspace(-N / 2.0, N / 2.0, N)
+    # 2n/(N-1) - 1 for n=0..N-1, that is [-1, 1]
+    n = linspace(-(N - 1) / 2.0, (N - 1) / 2.0, N)
     win = sinc(2 * n / (N - 1.0))
     return win
 
